@@ -266,12 +266,15 @@ func TestC09_Rapid(t *testing.T) {
 		quotes := rapid.SliceOfNDistinct(rapid.SampledFrom(quotePool), 1, 2, func(r rune) rune { return r }).Draw(rt, "quotes")
 		c := c09Case{Seps: seps, Quotes: quotes, Eol: rapid.SampledFrom(c09Eols).Draw(rt, "eol")}
 		rowsN := rapid.IntRange(1, 6).Draw(rt, "rows")
+		if rapid.IntRange(0, 19).Draw(rt, "bigtable") == 0 {
+			rowsN = rapid.IntRange(6, 60).Draw(rt, "manyrows")
+		}
 		for i := 0; i < rowsN; i++ {
 			colsN := rapid.IntRange(1, 5).Draw(rt, "cols")
 			var row []string
 			var qi []int
 			for j := 0; j < colsN; j++ {
-				n := rapid.SampledFrom([]int{0, 0, 1, 1, 2, 3, 5, 8, 12}).Draw(rt, "flen")
+				n := rapid.SampledFrom([]int{0, 0, 1, 1, 2, 3, 5, 8, 12, 17, 40, 300}).Draw(rt, "flen")
 				var sb strings.Builder
 				for k := 0; k < n; k++ {
 					switch rapid.IntRange(0, 7).Draw(rt, "fk") {
